@@ -662,7 +662,7 @@ impl TimeZoneProvider for FsTzdbProvider {
         utc_epoch: i128,
     ) -> TemporalResult<TimeZoneOffset> {
         let tzif = self.get(identifier)?;
-        let seconds = (utc_epoch / 1_000_000_000) as i64;
+        let seconds = utc_epoch.div_euclid(1_000_000_000) as i64;
         tzif.get(&Seconds(seconds))
     }
 
